@@ -18,7 +18,10 @@ RULE = ("results of all seven result types (arp, tcp, icmp/udp, socks, elastic, 
         "producer bursts (2-12 ARP / TCP / ICMP reply frames of 2-5 hosts with repeats through the real "
         "processors into the real result channel, fully queued before the real JSON / unique logger prints them); one big "
         "unique-logger history (the 524288 addresses of 10.0.0.0/13, each seen three times "
-        "interleaved) judged on the implementation alone; non-trivial = a result/string that is actually encoded, a text Go accepts, a history with at "
+        "interleaved) judged on the implementation alone; a record-LENGTH sweep through the real JSON logger (elastic x2, docker "
+        "and one seed-chosen packet type: records whose encoded JSON takes EVERY length the type can have up to 9000 bytes, in a row; "
+        "all six types at 2^9..2^16 -2..+2 bytes, three in a row; each line judged alone: one complete JSON object per result, on "
+        "its own terminated line, in order, decoding back to the result), short such histories also evaluated by the model; non-trivial = a result/string that is actually encoded, a text Go accepts, a history with at "
         "least one result (uniq: with a repeated ID); distinct by generator string")
 
 CODES = {1: "MarshalJSON bytes differ from the model's enc_record", 2: "the bytes do not decode to the sanitized values",
@@ -149,6 +152,11 @@ def describe(o):
         d["history"] = ("%s distinct hosts 10.0.0.0 upwards, each seen three times interleaved (i, i-1, i-7), through the real "
                         "unique logger" % o["gen"].split(":")[1])
         d["minimal_history"] = o.get("replay_gen")
+    elif o["t"] == "sweep":
+        d["sweep"] = o.get("sweep")
+        d["history"] = ("records of one result type whose MarshalJSON output takes every length lo..hi (generator "
+                        "lensweep:<type>:<logger>:<lo>:<hi>:<in a row>:<seed>), in increasing order through the real JSON logger")
+        d["minimal_history"] = o.get("replay_gen")
     elif o["t"] == "live":
         d["results"] = len(o.get("rs") or [])
         d["stdout"] = b"".join(bytes.fromhex(x) for x in o.get("writes") or [])[:600].decode("utf-8", "backslashreplace")
@@ -204,9 +212,9 @@ def run(ctx):
     rows = []
     if ctx.harness_build("c14"):
         if quick:
-            args = ["-seed", ctx.seed, "-n", 2000, "-hist", 200, "-dec", 600, "-str", 800, "-big", 524288, "-burst", 240]
+            args = ["-seed", ctx.seed, "-n", 2000, "-hist", 200, "-dec", 600, "-str", 800, "-big", 524288, "-burst", 240, "-sweep", 9000]
         else:
-            args = ["-seed", ctx.seed, "-n", 30000, "-hist", 2500, "-dec", 6000, "-str", 6000, "-pairs", "-big", 2097152, "-burst", 6000]
+            args = ["-seed", ctx.seed, "-n", 30000, "-hist", 2500, "-dec", 6000, "-str", 6000, "-pairs", "-big", 2097152, "-burst", 6000, "-sweep", 20000]
         rows = run_harness(ctx, "cases.jsonl", args, timeout=3000)
     skipped = [o for o in rows if o["t"] == "skip"]
     rows = [o for o in rows if o["t"] != "skip"]
@@ -215,7 +223,7 @@ def run(ctx):
                            "(the implementation passes on another number of results than ID() predicts)", skipped[0]["gen"]))
     for o in rows:
         sample = None
-        if o["t"] in ("rec", "log", "uniq", "live", "big"):
+        if o["t"] in ("rec", "log", "uniq", "live", "big", "sweep"):
             sample = describe(o)
         ctx.count(key_of(o) if o["t"] != "rec" else "rec:" + KINDS[o.get("kind", 0)], o["gen"], nontrivial=bool(o.get("nontrivial")),
                   sample=sample)
@@ -226,7 +234,7 @@ def run(ctx):
         ctx.info.append("%d damaged texts with raw invalid UTF-8 inside a string are accepted by encoding/json (it substitutes "
                         "U+FFFD) and rejected by the model's strict decoder; expected, not compared" % stricter)
     # judged on the implementation alone (too big to be worth re-evaluating in Coq; the capacity-4 histories are)
-    rows = [o for o in rows if o["t"] != "big" and o.get("class") != "backpressure-cap1000"]
+    rows = [o for o in rows if o["t"] not in ("big", "sweep") and o.get("class") != "backpressure-cap1000"]
     if model_ok and rows:
         nshards = 16 if quick else 64
         size = max(1, (len(rows) + nshards - 1) // nshards)
@@ -248,7 +256,7 @@ def run(ctx):
     if ctx.broken and not ctx.findings and os.path.exists(os.path.join(verif.HBIN, "c14")):
         # a proof or tie broke: look harder for an input on which the property itself fails on the real code
         more = run_harness(ctx, "search.jsonl", ["-seed", ctx.seed + 1000, "-n", 30000 if quick else 300000, "-hist", 2000,
-                                                 "-dec", 0, "-str", 20000, "-pairs", "-big", 2097152], timeout=3000)
+                                                 "-dec", 0, "-str", 20000, "-pairs", "-big", 2097152, "-sweep", 20000], timeout=3000)
         seen = set()
         for o in more:
             if o.get("spec") and key_of(o) not in seen and len(seen) < 3:
